@@ -731,16 +731,29 @@ func (c *Ctx) ruleErrSurface(rule string, fn *ssa.Function) {
 		}
 		ri++
 		key := fmt.Sprintf("%s#return%d", fnName(fn), ri)
+		// can a writer reach this return without passing the "list is empty" edge of a test of the list?
+		emptyEdges := map[edgeKey]bool{}
+		for _, b := range fn.Blocks {
+			if iff, ok := b.Instrs[len(b.Instrs)-1].(*ssa.If); ok {
+				if arg, nonEmpty, ok := x.lenCmpO(iff.Cond); ok && x.Cell(arg) == E {
+					if nonEmpty {
+						emptyEdges[edgeKey{b, 1}] = true
+					} else {
+						emptyEdges[edgeKey{b, 0}] = true
+					}
+				}
+			}
+		}
 		reach := false
 		for _, w := range writers {
-			if _, found := pathExists(fn, w, func(i2 ssa.Instruction) bool { return i2 == in }, nil); found {
+			if _, found := pathExistsE(fn, w, func(i2 ssa.Instruction) bool { return i2 == in }, emptyEdges); found {
 				reach = true
 			}
 		}
 		// guard on the list
 		emptyKnown, nonEmptyKnown := false, false
 		for _, g := range x.GuardsOf(r.Block()) {
-			if arg, nonEmpty, ok := lenCmp(g.Cond); ok && x.Cell(arg) == E {
+			if arg, nonEmpty, ok := x.lenCmpO(g.Cond); ok && x.Cell(arg) == E {
 				if nonEmpty == g.Pol {
 					nonEmptyKnown = true
 				} else {
@@ -952,4 +965,616 @@ func (c *Ctx) orderSource(fn *ssa.Function, ranged ssa.Value, before ssa.Instruc
 func (x *FnIndex) isStoreTo(in ssa.Instruction, cell *ssa.Alloc) bool {
 	st, ok := in.(*ssa.Store)
 	return ok && x.ResolveAddr(st.Addr) == ssa.Value(cell)
+}
+
+// ---- stages, windows, synchronous first/last (C05 B2/B3/B4/B5) -----------------
+
+type stage struct {
+	kind   string // "seq" or "fan"
+	ranged ssa.Value
+	loop   *Loop
+	pos    token.Pos
+	fo     *fanout
+	sl     *seqLoop
+}
+
+func stagesOf(loops []*seqLoop, fos []*fanout) []*stage {
+	var out []*stage
+	for _, sl := range loops {
+		out = append(out, &stage{kind: "seq", ranged: sl.ranged, loop: sl.loop, pos: sl.site.call.Pos(), sl: sl})
+	}
+	for _, fo := range fos {
+		if fo.loop != nil {
+			out = append(out, &stage{kind: "fan", ranged: fo.ranged, loop: fo.loop, pos: fo.goStmt.Pos(), fo: fo})
+		}
+	}
+	sort.Slice(out, func(i, j int) bool { return out[i].pos < out[j].pos })
+	return out
+}
+
+// intParams returns the int parameters of fn in order.
+func intParams(fn *ssa.Function) []*ssa.Parameter {
+	var out []*ssa.Parameter
+	for _, p := range fn.Params {
+		if b, ok := p.Type().Underlying().(*types.Basic); ok && b.Kind() == types.Int {
+			out = append(out, p)
+		}
+	}
+	return out
+}
+
+// reachAvoidingEdges: can `to` be reached from the start of block `from`
+// without taking any of the forbidden edges?
+func reachAvoidingEdges(from, to *ssa.BasicBlock, forbidden map[edgeKey]bool) bool {
+	seen := map[*ssa.BasicBlock]bool{from: true}
+	st := []*ssa.BasicBlock{from}
+	for len(st) > 0 {
+		b := st[len(st)-1]
+		st = st[:len(st)-1]
+		if b == to {
+			return true
+		}
+		for i, s := range b.Succs {
+			if forbidden[edgeKey{b, i}] {
+				continue
+			}
+			if !seen[s] {
+				seen[s] = true
+				st = append(st, s)
+			}
+		}
+	}
+	return false
+}
+
+// ruleWindows (B3): the two stages of an N-M model are S[0:n) and S[n:n+m).
+func (c *Ctx) ruleWindows(rule string, fn *ssa.Function, stages []*stage, selected bool) {
+	x := c.Index(fn)
+	key := fnName(fn)
+	ip := intParams(fn)
+	if len(stages) != 2 || len(ip) < 2 {
+		c.Check(rule, key+"#two-stages", false, fn.Pos(), "expected two stages and two int parameters, found %d stages, %d int parameters", len(stages), len(ip))
+		return
+	}
+	n, mm := atomForm(ip[0].Name()), atomForm(ip[1].Name())
+	if stages[0].ranged == nil || stages[1].ranged == nil {
+		c.Check(rule, key+"#windows", false, fn.Pos(), "a stage does not range over a slice")
+		return
+	}
+	b1, lo1, hi1 := x.sliceInterval(stages[0].ranged)
+	b2, lo2, hi2 := x.sliceInterval(stages[1].ranged)
+	ok := x.sameValue(b1, b2) && lo1.equal(constForm(0)) && hi1.equal(n) && lo2.equal(n) && hi2.equal(n.add(mm, 1))
+	c.Check(rule, key+"#windows", ok, stages[0].pos, "stage one is %s[%s:%s), stage two is %s[%s:%s); want S[0:%s) and S[%s:%s+%s)", x.Describe(b1), lo1, hi1, x.Describe(b2), lo2, hi2, ip[0].Name(), ip[0].Name(), ip[0].Name(), ip[1].Name())
+	// parameter checks dominate the first stage
+	head := stages[0].loop.Head
+	gs := x.GuardsOf(head)
+	has := func(pred func(g Guard) bool) bool {
+		for _, g := range gs {
+			if pred(g) {
+				return true
+			}
+		}
+		return false
+	}
+	posParam := func(p *ssa.Parameter) bool {
+		return has(func(g Guard) bool {
+			bo, ok := g.Cond.(*ssa.BinOp)
+			if !ok || x.Origin(bo.X) != ssa.Value(p) {
+				return false
+			}
+			k, isK := constInt(bo.Y)
+			if !isK {
+				return false
+			}
+			// p <= 0 false, p < 1 false, p > 0 true, p >= 1 true
+			return (bo.Op == token.LEQ && k == 0 && !g.Pol) || (bo.Op == token.LSS && k == 1 && !g.Pol) ||
+				(bo.Op == token.GTR && k == 0 && g.Pol) || (bo.Op == token.GEQ && k == 1 && g.Pol)
+		})
+	}
+	c.Check(rule, key+"#n-positive", posParam(ip[0]), fn.Pos(), "the first stage size must be checked > 0 before anything runs")
+	c.Check(rule, key+"#m-positive", posParam(ip[1]), fn.Pos(), "the second stage size must be checked > 0 before anything runs")
+	sum := n.add(mm, 1)
+	if !selected {
+		fits := has(func(g Guard) bool {
+			bo, ok := g.Cond.(*ssa.BinOp)
+			if !ok {
+				return false
+			}
+			l, r := x.symInt(bo.X), x.symInt(bo.Y)
+			lenB := x.symLen(b1)
+			return (bo.Op == token.GTR && !g.Pol && l.equal(sum) && r.equal(lenB)) || (bo.Op == token.LEQ && g.Pol && l.equal(sum) && r.equal(lenB))
+		})
+		c.Check(rule, key+"#fits", fits, fn.Pos(), "n+m <= len(%s) must be checked before anything runs", x.Describe(b1))
+	} else {
+		var names *ssa.Parameter
+		for _, p := range fn.Params {
+			if sl, ok := p.Type().Underlying().(*types.Slice); ok {
+				if b, ok := sl.Elem().Underlying().(*types.Basic); ok && b.Kind() == types.String {
+					names = p
+				}
+			}
+		}
+		eq := names != nil && has(func(g Guard) bool {
+			bo, ok := g.Cond.(*ssa.BinOp)
+			if !ok {
+				return false
+			}
+			l, r := x.symInt(bo.X), x.symInt(bo.Y)
+			ln := atomForm("len(" + names.Name() + ")")
+			match := (l.equal(sum) && r.equal(ln)) || (r.equal(sum) && l.equal(ln))
+			return match && ((bo.Op == token.NEQ && !g.Pol) || (bo.Op == token.EQL && g.Pol))
+		})
+		c.Check(rule, key+"#names-count", eq, fn.Pos(), "n+m == len(names) must be checked before anything runs")
+	}
+}
+
+// ruleStageGate (B4): after a concurrent first stage, `!flag && len(errors)>0 -> return` lies on every path to stage two.
+func (c *Ctx) ruleStageGate(rule string, fn *ssa.Function, stages []*stage, E *ssa.Alloc) {
+	m := c.engModel(fn)
+	x := m.x
+	key := fnName(fn) + "#gate"
+	if len(stages) != 2 || stages[0].kind != "fan" {
+		return
+	}
+	bPar := m.policyParam()
+	if bPar == nil || E == nil {
+		c.Check(rule, key, false, fn.Pos(), "no error-policy flag or error list in an N-M model")
+		return
+	}
+	// start: blocks after the first fan-out loop
+	forbidden := map[edgeKey]bool{}
+	for _, b := range fn.Blocks {
+		iff, ok := b.Instrs[len(b.Instrs)-1].(*ssa.If)
+		if !ok {
+			continue
+		}
+		if x.Origin(iff.Cond) == ssa.Value(bPar) {
+			forbidden[edgeKey{b, 0}] = true // flag true: continue allowed
+		}
+		if u, ok := iff.Cond.(*ssa.UnOp); ok && u.Op == token.NOT && x.Origin(u.X) == ssa.Value(bPar) {
+			forbidden[edgeKey{b, 1}] = true
+		}
+		if arg, nonEmpty, ok := lenCmp(iff.Cond); ok && x.Cell(arg) == E {
+			if nonEmpty {
+				forbidden[edgeKey{b, 1}] = true // list empty: continue allowed
+			} else {
+				forbidden[edgeKey{b, 0}] = true
+			}
+		}
+	}
+	bad := false
+	for _, t := range stages[0].loop.exitTargets() {
+		if reachAvoidingEdges(t, stages[1].loop.Head, forbidden) {
+			bad = true
+		}
+	}
+	c.Check(rule, key, !bad, stages[1].pos, "stage two must be reachable only when the flag says continue or no error was collected in stage one")
+	// and the gate's return is a new error (covered by errors-surface)
+}
+
+// ruleSyncSingles (B2): synchronous executions outside loops are rules[0] before
+// the fan-out over rules[1:], rules[len-1] after the joined fan-out over
+// rules[:len-1], or the only rule of a one-element list.
+func (c *Ctx) ruleSyncSingles(rule string, fn *ssa.Function, fos []*fanout, E *ssa.Alloc, want string) {
+	m := c.engModel(fn)
+	x := m.x
+	seenFirst, seenLast := false, false
+	for _, e := range m.execs {
+		if e.in != fn || x.InnermostLoop(e.call.Block()) != nil {
+			continue
+		}
+		key := e.key()
+		u, ok := e.recv.(*ssa.UnOp)
+		var ia *ssa.IndexAddr
+		if ok {
+			ia, _ = u.X.(*ssa.IndexAddr)
+		}
+		if ia == nil {
+			c.Check(rule, key, false, e.call.Pos(), "synchronous rule execution on %s, not on an element of the rule list", x.Describe(e.recv))
+			continue
+		}
+		idx := x.symInt(ia.Index)
+		base := ia.X
+		lenB := x.symLen(base)
+		// the error test of this call
+		var errIf *ssa.If
+		eachInstr(fn, func(in ssa.Instruction) {
+			if iff, ok := in.(*ssa.If); ok {
+				if s, neq, ok := nilCheck(iff.Cond); ok && neq && m.isExtract(s, e.call, 1) {
+					errIf = iff
+				}
+			}
+		})
+		runsMore := func(from ssa.Instruction) (ssa.Instruction, bool) {
+			return pathFrom(from, func(in ssa.Instruction) bool {
+				if _, ok := in.(*ssa.Go); ok {
+					return true
+				}
+				call, ok := in.(*ssa.Call)
+				return ok && isRuleExec(call)
+			}, nil)
+		}
+		switch {
+		case idx.equal(constForm(0)):
+			// single-rule list?
+			single := false
+			for _, g := range x.GuardsOf(e.call.Block()) {
+				if bo, ok := g.Cond.(*ssa.BinOp); ok && bo.Op == token.EQL && g.Pol {
+					if k, isK := constInt(bo.Y); isK && k == 1 && x.symInt(bo.X).equal(lenB) {
+						single = true
+					}
+				}
+			}
+			if single {
+				_, more := pathExists(fn, e.call, func(in ssa.Instruction) bool {
+					if _, ok := in.(*ssa.Go); ok {
+						return true
+					}
+					call, ok := in.(*ssa.Call)
+					return ok && isRuleExec(call)
+				}, nil)
+				c.Check(rule, key, !more && errIf != nil, e.call.Pos(), "single selected rule: executed alone, error returned")
+				continue
+			}
+			seenFirst = true
+			// must dominate a fan-out over base[1:len)
+			okFan := false
+			for _, fo := range fos {
+				if fo.ranged == nil {
+					continue
+				}
+				b2, lo, hi := x.sliceInterval(fo.ranged)
+				if x.sameValue(b2, base) && lo.equal(constForm(1)) && hi.equal(lenB) && domInstr(e.call, fo.goStmt) {
+					okFan = true
+				}
+			}
+			c.Check(rule, key+"/partition", okFan, e.call.Pos(), "rules[0] runs first and the fan-out covers exactly rules[1:len) of the same list")
+			if errIf == nil {
+				c.Check(rule, key+"/first-fails", false, e.call.Pos(), "the error of the first rule is not tested")
+			} else {
+				hit, more := runsMore(errIf.Block().Succs[0].Instrs[0])
+				p := e.call.Pos()
+				if more {
+					p = hit.Pos()
+				}
+				c.Check(rule, key+"/first-fails", !more, p, "if the first rule fails nothing else may run")
+			}
+		case idx.equal(lenB.add(constForm(1), -1)):
+			seenLast = true
+			okFan := false
+			for _, fo := range fos {
+				if fo.ranged == nil || fo.wg == nil {
+					continue
+				}
+				b2, lo, hi := x.sliceInterval(fo.ranged)
+				if !(x.sameValue(b2, base) && lo.equal(constForm(0)) && hi.equal(lenB.add(constForm(1), -1))) {
+					continue
+				}
+				// dominated by the Wait of that fan-out
+				eachInstr(fn, func(in ssa.Instruction) {
+					if wgOp(x, in, "Wait") == fo.wg && domInstr(in, e.call) {
+						okFan = true
+					}
+				})
+			}
+			c.Check(rule, key+"/partition", okFan, e.call.Pos(), "rules[len-1] runs after the joined fan-out over exactly rules[0:len-1) of the same list")
+			empty := false
+			for _, g := range x.GuardsOf(e.call.Block()) {
+				if arg, nonEmpty, ok := lenCmp(g.Cond); ok && E != nil && x.Cell(arg) == E && nonEmpty != g.Pol {
+					empty = true
+				}
+			}
+			c.Check(rule, key+"/last-gated", empty, e.call.Pos(), "the last rule may start only when no earlier rule failed (error list known empty)")
+		default:
+			c.Check(rule, key, false, e.call.Pos(), "synchronous rule execution on element %s of %s: neither the first nor the last rule", idx, x.Describe(base))
+		}
+	}
+	if want == "first" {
+		c.Check(rule, fnName(fn)+"#has-sync-first", seenFirst, fn.Pos(), "mix model must execute the first rule synchronously")
+	}
+	if want == "last" {
+		c.Check(rule, fnName(fn)+"#has-sync-last", seenLast, fn.Pos(), "inverse mix model must execute the last rule synchronously")
+	}
+}
+
+// ---- selection of rules by name (C12 N1/N3/N4, C13 G3) ---------------------------
+
+type selection struct {
+	cell    *ssa.Alloc      // the local slice of selected rules
+	lookups []*ssa.Lookup   // comma-ok lookups feeding it
+	keySrc  []string        // description of the key source per lookup
+	loops   []*Loop
+}
+
+// lenCmpO is lenCmp looking through local variables (length := len(rules)).
+func (x *FnIndex) lenCmpO(cond ssa.Value) (ssa.Value, bool, bool) {
+	if a, ne, ok := lenCmp(cond); ok {
+		return a, ne, ok
+	}
+	b, ok := cond.(*ssa.BinOp)
+	if !ok {
+		return nil, false, false
+	}
+	xo := x.Origin(b.X)
+	la, isLen := builtinCall(xo, "len")
+	k, isK := constInt(b.Y)
+	if !isLen || !isK {
+		return nil, false, false
+	}
+	switch {
+	case b.Op == token.GTR && k == 0, b.Op == token.GEQ && k == 1, b.Op == token.NEQ && k == 0:
+		return la[0], true, true
+	case b.Op == token.EQL && k == 0, b.Op == token.LSS && k == 1, b.Op == token.LEQ && k == 0:
+		return la[0], false, true
+	}
+	return nil, false, false
+}
+
+// ruleSelection analyses how the local rule slice of a selected / DAG function
+// is filled. missPolicy: "skip" (unknown names are skipped) or "fail"
+// (an unknown name returns an error before anything runs).
+func (c *Ctx) ruleSelection(rule string, fn *ssa.Function, missPolicy string) *selection {
+	m := c.engModel(fn)
+	x := m.x
+	key := fnName(fn)
+	// the cell: a local []*RuleEntity that is appended to
+	var cell *ssa.Alloc
+	eachInstr(fn, func(in ssa.Instruction) {
+		st, ok := in.(*ssa.Store)
+		if !ok {
+			return
+		}
+		al, ok := x.ResolveAddr(st.Addr).(*ssa.Alloc)
+		if !ok {
+			return
+		}
+		sl, ok := al.Type().(*types.Pointer).Elem().Underlying().(*types.Slice)
+		if !ok || structName(sl.Elem()) != "RuleEntity" {
+			return
+		}
+		if args, ok := builtinCall(st.Val, "append"); ok && x.Cell(args[0]) == al {
+			if cell == nil {
+				cell = al
+			} else if cell != al {
+				c.Check(rule, key+"#one-selection", false, st.Pos(), "two different rule slices are filled")
+			}
+		}
+	})
+	if cell == nil {
+		c.Check(rule, key+"#selection", false, fn.Pos(), "no local rule slice is filled by lookups")
+		return nil
+	}
+	sel := &selection{cell: cell}
+	allOK := true
+	si := 0
+	for _, st := range x.stores[cell] {
+		si++
+		skey := fmt.Sprintf("%s#select%d", key, si)
+		args, ok := builtinCall(st.Val, "append")
+		if !ok || x.Cell(args[0]) != cell || st.Parent() != fn {
+			c.Check(rule, skey, false, st.Pos(), "the selected-rule slice is assigned something other than append(itself, hit)")
+			allOK = false
+			continue
+		}
+		// the appended element: varargs slice of a one-element array holding the hit
+		hit := x.appendedSingle(args[1])
+		if hit == nil {
+			c.Check(rule, skey, false, st.Pos(), "cannot identify the appended element")
+			allOK = false
+			continue
+		}
+		ex, ok := x.Origin(hit).(*ssa.Extract)
+		var lk *ssa.Lookup
+		if ok && ex.Index == 0 {
+			lk, _ = ex.Tuple.(*ssa.Lookup)
+		}
+		if lk == nil || !lk.CommaOk {
+			c.Check(rule, skey, false, st.Pos(), "appended element %s is not the hit of a comma-ok map lookup", x.Describe(hit))
+			allOK = false
+			continue
+		}
+		base, ok := x.isFieldLoad(lk.X, "KnowledgeContext", "RuleEntities")
+		if !ok {
+			c.Check(rule, skey, false, lk.Pos(), "lookup is made in %s, not in the rule container's name map", x.Describe(lk.X))
+			allOK = false
+			continue
+		}
+		_ = base
+		// guarded by ok == true
+		var okIf *ssa.If
+		eachInstr(fn, func(in ssa.Instruction) {
+			if iff, isIf := in.(*ssa.If); isIf {
+				if e2, isEx := x.Origin(iff.Cond).(*ssa.Extract); isEx && e2.Tuple == ssa.Value(lk) && e2.Index == 1 {
+					okIf = iff
+				}
+			}
+		})
+		if okIf == nil || !x.edgeDominated(okIf.Block(), 0)[st.Block()] {
+			c.Check(rule, skey, false, st.Pos(), "the append is not under the ok-edge of its lookup")
+			allOK = false
+			continue
+		}
+		// key source: element of a ranged []string or dag[i][j] in a forward counted loop
+		ksrc := x.Describe(lk.Index)
+		L := x.InnermostLoop(lk.Block())
+		forward := L != nil
+		if s, l, isRange := x.rangedSlice(lk.Index); isRange {
+			ksrc = "each element of " + x.Describe(s)
+			forward = forward && l == L
+		}
+		sel.lookups = append(sel.lookups, lk)
+		sel.keySrc = append(sel.keySrc, ksrc)
+		sel.loops = append(sel.loops, L)
+		c.Check(rule, skey, forward, st.Pos(), "hit of RuleEntities[%s] appended on the ok-edge inside the loop over the names", ksrc)
+		// miss edge: the looked-up value must not be used
+		missBlocks := x.edgeDominated(okIf.Block(), 1)
+		hitCell := x.cellHolding(ex)
+		used := ""
+		var usedPos token.Pos
+		for b := range missBlocks {
+			for _, in := range b.Instrs {
+				for _, op := range in.Operands(nil) {
+					if *op == nil {
+						continue
+					}
+					if *op == ssa.Value(ex) {
+						used, usedPos = "the missing rule", in.Pos()
+					}
+					if u, isU := (*op).(*ssa.UnOp); isU && u.Op == token.MUL && hitCell != nil && x.ResolveAddr(u.X) == ssa.Value(hitCell) {
+						used, usedPos = "the missing rule", in.Pos()
+					}
+				}
+			}
+		}
+		c.Check(rule, skey+"/miss-not-used", used == "", usedPos, "on the miss edge the looked-up (nil) rule is used at %s", c.pos(usedPos))
+		// miss policy
+		if missPolicy == "fail" {
+			bad := false
+			first := okIf.Block().Succs[1].Instrs[0]
+			if _, found := pathFrom(first, func(in ssa.Instruction) bool {
+				if in == L.Head.Instrs[0] {
+					return true
+				}
+				if _, isGo := in.(*ssa.Go); isGo {
+					return true
+				}
+				call, isCall := in.(*ssa.Call)
+				return isCall && isRuleExec(call)
+			}, nil); found {
+				bad = true
+			}
+			if _, found := pathFrom(first, func(in ssa.Instruction) bool {
+				r, isR := in.(*ssa.Return)
+				if !isR {
+					return false
+				}
+				for _, pv := range x.PossibleValues(r.Results[len(r.Results)-1]) {
+					if pv.V == nil || !isNewError(pv.V) {
+						return true
+					}
+				}
+				return false
+			}, nil); found {
+				bad = true
+			}
+			c.Check(rule, skey+"/miss-fails", !bad, okIf.Pos(), "an unknown name must return an error without running anything")
+		} else {
+			// skip: the miss edge continues the loop and runs nothing itself
+			first := okIf.Block().Succs[1].Instrs[0]
+			_, runs := pathFrom(first, func(in ssa.Instruction) bool {
+				if isReturn(in) {
+					return true
+				}
+				call, isCall := in.(*ssa.Call)
+				return isCall && isRuleExec(call)
+			}, func(in ssa.Instruction) bool { return in == L.Head.Instrs[0] })
+			c.Check(rule, skey+"/miss-skipped", !runs, okIf.Pos(), "an unknown name must simply be skipped (continue with the next name)")
+		}
+	}
+	_ = allOK
+	return sel
+}
+
+// appendedSingle: for append(s, e) SSA passes a slice of a fresh 1-element array; return e.
+func (x *FnIndex) appendedSingle(v ssa.Value) ssa.Value {
+	sl, ok := v.(*ssa.Slice)
+	if !ok {
+		return nil
+	}
+	arr, ok := sl.X.(*ssa.Alloc)
+	if !ok {
+		return nil
+	}
+	var val ssa.Value
+	n := 0
+	for _, ref := range *arr.Referrers() {
+		if ia, ok := ref.(*ssa.IndexAddr); ok {
+			for _, r2 := range *ia.Referrers() {
+				if st, ok := r2.(*ssa.Store); ok && st.Addr == ssa.Value(ia) {
+					val = st.Val
+					n++
+				}
+			}
+		}
+	}
+	if n != 1 {
+		return nil
+	}
+	return val
+}
+
+// cellHolding: the local variable cell that a value is stored into right away.
+func (x *FnIndex) cellHolding(v ssa.Value) *ssa.Alloc {
+	for _, ref := range *v.Referrers() {
+		if st, ok := ref.(*ssa.Store); ok && st.Val == v {
+			if al, ok := x.ResolveAddr(st.Addr).(*ssa.Alloc); ok {
+				return al
+			}
+		}
+	}
+	return nil
+}
+
+// ruleNonEmptySelection (N3): every execution / fan-out is dominated by the
+// knowledge that the selected slice is not empty, and the empty case returns an error.
+func (c *Ctx) ruleNonEmptySelection(rule string, fn *ssa.Function, sel *selection) {
+	if sel == nil {
+		return
+	}
+	m := c.engModel(fn)
+	x := m.x
+	key := fnName(fn)
+	// the test
+	var test *ssa.If
+	nonEmptyEdge := 0
+	eachInstr(fn, func(in ssa.Instruction) {
+		if iff, ok := in.(*ssa.If); ok && test == nil {
+			if arg, ne, ok := x.lenCmpO(iff.Cond); ok && x.Cell(arg) == sel.cell {
+				test = iff
+				if ne {
+					nonEmptyEdge = 0
+				} else {
+					nonEmptyEdge = 1
+				}
+			}
+		}
+	})
+	if test == nil {
+		c.Check(rule, key+"#empty-test", false, fn.Pos(), "the selected-rule slice is never tested for being empty")
+		return
+	}
+	dom := x.edgeDominated(test.Block(), nonEmptyEdge)
+	bad := ""
+	var badPos token.Pos
+	eachInstr(fn, func(in ssa.Instruction) {
+		isRun := false
+		if _, ok := in.(*ssa.Go); ok {
+			isRun = true
+		}
+		if call, ok := in.(*ssa.Call); ok && isRuleExec(call) {
+			isRun = true
+		}
+		if isRun && !dom[in.Block()] {
+			bad, badPos = "runs", in.Pos()
+		}
+	})
+	c.Check(rule, key+"#nothing-runs-when-empty", bad == "", badPos, "a rule can run at %s although no named rule exists", c.pos(badPos))
+	// the empty edge returns a new error
+	first := test.Block().Succs[1-nonEmptyEdge].Instrs[0]
+	_, wrong := pathFrom(first, func(in ssa.Instruction) bool {
+		r, ok := in.(*ssa.Return)
+		if !ok {
+			return false
+		}
+		for _, pv := range x.PossibleValues(r.Results[len(r.Results)-1]) {
+			if pv.V == nil || !isNewError(pv.V) {
+				return true
+			}
+		}
+		return false
+	}, func(in ssa.Instruction) bool {
+		_, isGo := in.(*ssa.Go)
+		return isGo
+	})
+	c.Check(rule, key+"#empty-is-error", !wrong, test.Pos(), "with no existing named rule the call must fail with an error")
 }
